@@ -238,6 +238,7 @@ def run(prog, rep):
     # the digest slot of every algorithm returns the address of an array embedded in the context: it cannot be NULL for the
     # non-NULL context the object holds, so a "digest == NULL" exit is not a path on which the object is left in any state
     dig_nonnull = True
+    dig_writes = []
     dig_fns = sorted(set(v_[0].get("digest") for v_ in cases.values() if v_[0].get("digest")))
     for dname in dig_fns:
         au = prog.unit(algo_fn[dname]) if dname in algo_fn else None
@@ -251,6 +252,35 @@ def run(prog, rep):
                 okn = False
         if not okn:
             dig_nonnull = False
+        # ... and reads only: the dispatcher finishes once but calls the digest slot on every read, so a digest function that
+        # modifies the context (a byte swap moved here from finish, a lazily applied padding) makes the second read differ
+        if dfn is not None:
+            dv = au.fn(dname)
+            p0 = dv.param_names()[0]
+            # pointers into the context: the parameter, its copies, and pointer locals computed from them (`data = ctx->hash`)
+            into = set(dv.value_aliases(p0))
+            grew = True
+            while grew:
+                grew = False
+                for (b, i, n) in dv.nodes(elsewhere=True):
+                    tgt = src = None
+                    if n["k"] == "asg" and strip_casts(n["l"]) is not None and strip_casts(n["l"])["k"] == "ref":
+                        tgt, src, tt = strip_casts(n["l"])["name"], n["r"], au.types[strip_casts(n["l"]).get("t", 0)]
+                    elif n["k"] == "decl" and n.get("init") is not None:
+                        tgt, src, tt = n["name"], n["init"], au.types[n.get("t", 0)]
+                    if tgt is not None and tgt not in into and tt.get("k") in ("ptr", "arr") and root_var(src) in into:
+                        into.add(tgt)
+                        grew = True
+            wr = []
+            for (b, i, n) in dv.nodes(elsewhere=True):
+                if n["k"] == "asg" and strip_casts(n["l"]) is not None and strip_casts(n["l"])["k"] != "ref" and root_var(n["l"]) in into:
+                    wr.append(n)
+                if n["k"] == "un" and ("++" in n.get("op", "") or "--" in n.get("op", "")) and strip_casts(n["e"])["k"] != "ref" and root_var(n["e"]) in into:
+                    wr.append(n)
+                if n["k"] == "call" and any(root_var(a) in into for a in n.get("args", ())):
+                    wr.append(n)
+            if wr:
+                dig_writes.append((dname, wr[0]))
 
     def finish_flow(fn):
         """per path: was finish called, was closed stored, which variable holds the digest pointer"""
@@ -316,6 +346,9 @@ def run(prog, rep):
         if not digs:
             ok, msg = False, "the digest slot is never read"
         rep.ob("C11.2", g, "finish-once", ok, "finish runs only while open, the digest is read only from a finished state, and every exit after finish leaves the hash marked closed" if ok else msg, at)
+    rep.ob("C11.2", nw, "digest:readonly", bool(dig_fns) and not dig_writes, "the %d digest slots only read their context: reading the result is repeatable" % len(dig_fns) if not dig_writes else
+           "%s:%d: %s modifies its context (or hands it to a call): the dispatcher calls the digest slot on every read of a finished hash, so the second read returns a different digest"
+           % (algo_fn.get(dig_writes[0][0]), line(dig_writes[0][1]), dig_writes[0][0]), nw.loc[0])
     rep.ob("C11.2", nw, "digest:nonnull", bool(dig_fns) and dig_nonnull, "the %d digest slots return the address of an array embedded in the context (never NULL)" % len(dig_fns) if (dig_fns and dig_nonnull) else
            "a digest slot may return something other than an array embedded in its context: the NULL-digest exits of the readers are then real", hu.fn("p_crypto_hash_new").loc[0])
     rs = hu.fn("p_crypto_hash_reset")
@@ -337,7 +370,7 @@ def run(prog, rep):
             okb = False
     rep.ob("C11.2", gd, "digest:bound", okb, "the digest is copied out only after hash_len <= *len was established, and exactly hash_len bytes" if okb else
            "get_digest copies into the caller's buffer without hash_len <= *len established (or a different number of bytes)", gd.loc[0])
-    rep.floor("C11.2", 6)
+    rep.floor("C11.2", 7)
 
     # ---- C11.3 hex -----------------------------------------------------------------------
     # decided on p_crypto_hash_get_string with its helpers inlined, so it does not matter whether the encoder is a helper that
@@ -1052,6 +1085,8 @@ SELFTEST = [
          new="\tif (!hash->closed) {\n\t\thash->finish (hash->context);\n\t}\n\n\tif (P_UNLIKELY ((digest = hash->digest (hash->context)) == NULL)) {\n\t\t*len = 0;"),
     dict(id="hex-upper", file="src/pcryptohash.c", expect="C11.3",
          old="\"0123456789abcdef\"", new="\"0123456789ABCDEF\""),
+    dict(id="sha512-byte-swap-in-digest", expect="C11.2", edits=[
+        dict(file="src/pcryptohash-sha2-512.c", old="\treturn (const puchar *) ctx->hash;", new="\tpp_crypto_hash_sha2_512_swap_bytes (ctx->hash, ctx->is384 == FALSE ? 8 : 6);\n\treturn (const puchar *) ctx->hash;")]),
     dict(id="hex-buffer-without-terminator", file="src/pcryptohash.c", expect="C11.3",
          old="p_malloc0 (hash->hash_len * 2 + 1)", new="p_malloc0 (hash->hash_len * 2)"),
     dict(id="hex-loop-stops-one-early", file="src/pcryptohash.c", expect="C11.3",
